@@ -166,6 +166,11 @@ class Interp:
                 r = self.call_hook(e, args, env, members)
                 if r is not None:
                     return r
+            if name in ('abs', 'labs', 'llabs', '__builtin_abs', '__builtin_labs', '__builtin_llabs') and len(args) == 1:
+                w, _ = width(e.get('t'))
+                if args[0] == -(1 << (w - 1)):
+                    _undef('%s(%d): the magnitude is not representable in %s' % (name, args[0], e.get('t')))
+                return abs(args[0])
             if name in BUILTINS:
                 return BUILTINS[name](args)
             g = self.facts.by_id.get(e.get('cid')) if self.facts is not None else None
